@@ -162,10 +162,15 @@ pub fn ref_walk(
         yielded.insert(Yield::Module(s.to_string()));
         let check_types =
           include_types && checkable(o, m.specifier(), m.media_type());
-        let deps = if check_types && o.prefer_fast_check {
-          m.dependencies_prefer_fast_check()
-        } else {
-          m.dependencies()
+        // the fast-check dependency map replaces a JS module's own map when
+        // it exists and is preferred; every other module kind keeps its own
+        // (stated here rather than taken from the graph's helper)
+        let deps = match m {
+          deno_graph::Module::Js(js) if check_types && o.prefer_fast_check => match js.fast_check_module() {
+            Some(fc) => &fc.dependencies,
+            None => &js.dependencies,
+          },
+          _ => m.dependencies(),
         };
         // errors attached to the module
         if include_types {
